@@ -447,9 +447,17 @@ class WorkerController:
                     fslocation=kwargs["nodeid"],
                 )
             elif eventname == "warning_recorded":
-                warning_message = unserialize_warning_message(
-                    kwargs["warning_message_data"]
-                )
+                try:
+                    warning_message = unserialize_warning_message(
+                        kwargs["warning_message_data"]
+                    )
+                except Exception:
+                    # The warning class can not be imported or instantiated
+                    # here (it may be defined in a test module): re-emit a
+                    # generic warning instead of writing the worker off.
+                    warning_message = _generic_warning_message(
+                        kwargs["warning_message_data"]
+                    )
                 self.notify_inproc(
                     eventname,
                     warning_message=warning_message,
@@ -468,6 +476,25 @@ class WorkerController:
             self.config.notify_exception(excinfo)
             self.shutdown()
             self.notify_inproc("errordown", node=self, error=excinfo)
+
+
+def _generic_warning_message(data: dict[str, Any]) -> warnings.WarningMessage:
+    """A generic warning carrying the class name and text of one that can not be rebuilt."""
+    message: Warning | str = data["message_str"]
+    if data["message_module"]:
+        message = Warning(
+            "{mod}.{cls}: {msg}".format(
+                mod=data["message_module"],
+                cls=data["message_class_name"],
+                msg=data["message_str"],
+            )
+        )
+    kwargs = {"message": message, "category": Warning}
+    for attr_name in warnings.WarningMessage._WARNING_DETAILS:  # type: ignore[attr-defined]
+        if attr_name in ("message", "category"):
+            continue
+        kwargs[attr_name] = data[attr_name]
+    return warnings.WarningMessage(**kwargs)  # type: ignore[arg-type]
 
 
 def unserialize_warning_message(data: dict[str, Any]) -> warnings.WarningMessage:
